@@ -53,6 +53,7 @@ fn struct_names(ty: Ty) -> &'static [&'static str] {
         Ty::Misc => &["", "nt"],
         Ty::TopEnum => &["C", "N"],
         Ty::Tree => &["", "child"],
+        Ty::Rows => &["", "row", "cell", "opt", "last"],
     }
 }
 
@@ -68,6 +69,7 @@ fn elemonly_names(ty: Ty) -> &'static [&'static str] {
         Ty::Misc => &["", "nt"],
         Ty::TopEnum => &["C", "N"],
         Ty::Tree => &["", "child"],
+        Ty::Rows => &["", "row", "cell", "opt", "last"],
     }
 }
 
